@@ -35,6 +35,12 @@ MUTS = {
                                   ("    err (\"%p: Canceled %d pending threads.\\n\", n);\n    dsh_mutex_unlock (&threadcount_mutex);", "    err (\"%p: Canceled %d pending threads.\\n\", n);\n    dsh_mutex_unlock (&thd_mutex);")],
     "m17-break-without-unlock": [("        if (i >= rshcount) {\n            dsh_mutex_unlock(&threadcount_mutex);\n            break;", "        if (i >= rshcount) {\n            break;")],
     "m18-fwd-sigterm": [("    if (sigint_terminates) {\n        _fwd_signal(SIGINT);", "    if (sigint_terminates) {\n        _fwd_signal(SIGTERM);")],
+    # the repair of F20-LATEINT taken out: dsh() frees t[] while a handler may still be running
+    "m19-no-join-of-signals-thread": [("    pthread_join(thread_sig, NULL);\n", "")],
+    # seeded change C20-4: `continue` with threadcount_mutex held, the next iteration locks it again
+    "m20-continue-with-mutex-held": [("        while ((t[i].state == DSH_CANCELED) && (i < rshcount))\n            ++i;\n        /*\n         *  Abort if no more threads\n         */\n"
+                                      "        if (i >= rshcount) {\n            dsh_mutex_unlock(&threadcount_mutex);\n            break;\n        }\n",
+                                      "        if (t[i].state == DSH_CANCELED)\n            continue;\n")],
 }
 ids = sys.argv[2:] or sorted(MUTS)
 for mid in ids:
